@@ -104,29 +104,38 @@ func xmlUnmarshalElement(el *etree.Element, obj interface{}) error {
 }
 
 func (sp *SAMLServiceProvider) getDecryptCert() (*tls.Certificate, error) {
-	if sp.SPKeyStore == nil {
+	if sp.spKeyStoreOverride == nil && sp.SPKeyStore == nil {
 		return nil, fmt.Errorf("no decryption certs available")
 	}
 
 	//This is the tls.Certificate we'll use to decrypt any encrypted assertions
 	var decryptCert tls.Certificate
 
-	switch crt := sp.SPKeyStore.(type) {
-	case dsig.TLSCertKeyStore:
-		// Get the tls.Certificate directly if possible
-		decryptCert = tls.Certificate(crt)
-
-	default:
-
-		//Otherwise, construct one from the results of GetKeyPair
-		pk, cert, err := sp.SPKeyStore.GetKeyPair()
-		if err != nil {
-			return nil, fmt.Errorf("error getting keypair: %v", err)
-		}
-
+	if ks := sp.spKeyStoreOverride; ks != nil {
+		// The key set via SetSPKeyStore takes precedence over the deprecated field
+		// (this is the key whose certificate getEncryptionCert publishes).
 		decryptCert = tls.Certificate{
-			Certificate: [][]byte{cert},
-			PrivateKey:  pk,
+			Certificate: [][]byte{ks.Cert},
+			PrivateKey:  ks.Signer,
+		}
+	} else {
+		switch crt := sp.SPKeyStore.(type) {
+		case dsig.TLSCertKeyStore:
+			// Get the tls.Certificate directly if possible
+			decryptCert = tls.Certificate(crt)
+
+		default:
+
+			//Otherwise, construct one from the results of GetKeyPair
+			pk, cert, err := sp.SPKeyStore.GetKeyPair()
+			if err != nil {
+				return nil, fmt.Errorf("error getting keypair: %v", err)
+			}
+
+			decryptCert = tls.Certificate{
+				Certificate: [][]byte{cert},
+				PrivateKey:  pk,
+			}
 		}
 	}
 
